@@ -17,7 +17,9 @@ SEPS = [' ', '\n', '\t', '\r\n', '  ', '\n\n', ' \t ',
         ' -- one " quote --\n', ' -- it\'s\n', '\n-- full line comment\n', ' /**/ ', '\n/*\n*/\n', ' --\n',
         # nested block comments spread over several lines (the line count must survive every nesting level)
         ' /* outer\n /* nested\n */ still\n */ ', '\n/* a\n\n/* b */\n/* c\n*/ d */\n',
-        ' /* 1 /* 2\n /* 3 */\n */\n */ ', ' /*\n/**/\n*/ ', ' /* x -- y\n /* z */ -- w\n */ ']
+        ' /* 1 /* 2\n /* 3 */\n */\n */ ', ' /*\n/**/\n*/ ', ' /* x -- y\n /* z */ -- w\n */ ',
+        # CRLF line ends: they end a line comment and count as one line
+        ' -- a comment\r\n', '\r\n-- full line comment\r\n', ' --\r\n', ' /* a\r\n b */ ', '\r\n\r\n']
 MULTI = [('OCTET', 'STRING'), ('BIT', 'STRING'), ('OBJECT', 'IDENTIFIER'), ('WITH', 'COMPONENTS'),
          ('WITH', 'COMPONENT'), ('COMPONENTS', 'OF'), ('EXTENSIBILITY', 'IMPLIED'), ('DEFINED', 'BY'),
          ('ANY', 'DEFINED'), ('WITH', 'SYNTAX'), ('CONSTRAINED', 'BY')]
@@ -79,8 +81,12 @@ def seps_for(draw, tokens, rich):
     chosen = {}
     for i in idx + multi[:8]:
         chosen[i] = draw(st.sampled_from(SEPS))
-    base = draw(st.sampled_from([' ', '\n']))
-    return [chosen.get(i, base if i % 7 else '\n') for i in range(n)]
+    base = draw(st.sampled_from([' ', '\n', '\r\n']))
+    nl = '\r\n' if base == '\r\n' else '\n'
+    if nl == '\r\n':
+        # a text with CRLF line ends throughout (as read from a file in binary mode / received over the wire)
+        chosen = {i: s_.replace('\r\n', '\n').replace('\n', '\r\n') for i, s_ in chosen.items()}
+    return [chosen.get(i, base if i % 7 else nl) for i in range(n)]
 
 
 class C14(Check):
